@@ -313,12 +313,20 @@ func ruleC07_3(c *Ctx) {
 			c.check(okAll, "SRespCodec.MSet: OK only if every fragment is Ok", firstPos(c, em[okBlock]), "the +OK store is reached only after the loop over all of Msg.Body ran to exhaustion",
 				"+OK is stored without having examined every fragment of the request: a node's failure is reported as success depending on iteration/arrival order")
 			okErr := false
-			if errBlock != nil && loop != nil && loop.Blocks[errBlock] || (errBlock != nil && loop != nil && reachedOnlyFromLoop(loop, errBlock)) {
-				gs := guardsAt(errBlock)
-				okErr = guardHas(gs, func(g Guard) bool {
-					_, is := fieldLoad(g.Cond, okF)
-					return is && !g.Truth
-				})
+			if errBlock != nil && loop != nil {
+				// the !v.Ok edge of the per-fragment test leads straight to the error store: no further condition
+				for b := range loop.Blocks {
+					ifi, ok := b.Instrs[len(b.Instrs)-1].(*ssa.If)
+					if !ok {
+						continue
+					}
+					if _, is := fieldLoad(ifi.Cond, okF); !is {
+						continue
+					}
+					if b.Succs[1] == errBlock && len(errBlock.Preds) == 1 {
+						okErr = true
+					}
+				}
 			}
 			c.check(okErr, "SRespCodec.MSet: error when a fragment is not Ok", firstPos(c, em[errBlock]), "error reply on !v.Ok", "no error reply is produced on the !v.Ok edge of the loop over the fragments")
 		}
